@@ -809,7 +809,16 @@ func (g *generator) enterNextFinallyFrame() (canContinue bool) {
 		}
 		ex := vm.restoreStacks(tf.iterLen, tf.refLen)
 		if ex != nil {
-			vm.throw(ex)
+			// an iterator's return() threw: the exception replaces the return and is handled by the body
+			g.returning = nil
+			if tf = &vm.tryStack[len(vm.tryStack)-1]; tf.catchPos == tryPanicMarker {
+				// the frame of a finally block that an earlier return() had entered: it is abandoned
+				if ex = g.throwIntoBody(ex); ex != nil {
+					panic(ex)
+				}
+			} else {
+				vm.throw(ex)
+			}
 			return true
 		}
 		// closing the iterators pushes (and pops) try frames: the stack may have been reallocated
